@@ -49,9 +49,12 @@ J09(T) == ("C09" \in Props /\ Ok(T)) =>
   /\ (AbsentRouted(T) \/ Say(T, "C09.absent_sequence_routed", "contig-naming=" \o T.naming \o "/scaffold-names=" \o T.style))
 \* the uniqueness clause alone on maps of the PretextView model (cut, moved, tagged pieces; sequence absent from the map): input names there
 \* (S1, HAP1_SCAFFOLD_1, ...) are outside the generated namespaces
-J10u(T) == ("C10" \in Props /\ Ok(T) /\ "nhaps" \notin DOMAIN T /\ "route" \notin DOMAIN T) =>
+DupAsm(T) == CHOOSE a \in {T.out[o].asm_lc : o \in 1..Len(T.out)} :
+                \E o1, o2 \in 1..Len(T.out) : o1 < o2 /\ T.out[o1].asm_lc = a /\ T.out[o2].asm_lc = a /\ T.out[o1].name = T.out[o2].name
+J10u(T) == ("C10" \in Props /\ Ok(T) /\ "nhaps" \notin DOMAIN T) =>
   /\ Count(3, Len(T.out))
-  /\ (UniqueNames(T) \/ Say(T, "C10.unique_names", "pretextview-map/contig-naming=" \o T.naming \o "/scaffold-names=" \o T.style))
+  /\ (UniqueNames(T) \/ Say(T, "C10.unique_names", IF "route" \in DOMAIN T THEN "written-file-of=" \o DupAsm(T) \o "/scaffold-names=" \o T.style
+                                                     ELSE "pretextview-map/contig-naming=" \o T.naming \o "/scaffold-names=" \o T.style))
 J10(T) == ("C10" \in Props /\ Ok(T) /\ "nhaps" \in DOMAIN T) =>
   IF ~AllPlaced(T) THEN Say(T, "C10.unique_names", "piece-missing-from-output")
   ELSE
@@ -93,7 +96,8 @@ JReports(T) == ("MODEL" \in Props /\ Ok(T) /\ "report" \in DOMAIN T /\ AllPlaced
   /\ (ChrReportMatches(T) \/ PrintT(<<"M", T.tid, "chr_report", T.cls>>))
   /\ (SanityMatches(T) \/ PrintT(<<"M", T.tid, "sanity_warnings", T.cls>>))
   /\ Count(8, T.sanity.mismatch + Len(T.sanity.large))
-JPas(T) == ("MODEL" \in Props /\ Ok(T) /\ "pas" \in DOMAIN T) =>
+\* (not through the command line in Primary mode: there the info yaml lists haplotypes whose scaffolds are written to the merged all_haplotigs file)
+JPas(T) == ("MODEL" \in Props /\ Ok(T) /\ "pas" \in DOMAIN T /\ ("route" \notin DOMAIN T \/ PrimaryHap(T) = "")) =>
   /\ Count(9, Len(T.pas))
   /\ (PasMatches(T) \/ PrintT(<<"M", T.tid, "per_assembly_stats", T.cls>>))
   /\ (PasBreaksAddUp(T) \/ PrintT(<<"M", T.tid, "per_assembly_breaks_add_up", T.cls>>))
